@@ -424,6 +424,12 @@ def part_router(sub, tier, acc, k=None):
                                if not 500 <= i < 500 + n - 1],
             "full": [(i, 9) for i in range(1, 1024)],
             "same_app_present": [(i, 66) for i in range(1, 4)],
+            # the application already owns entries and the new table cannot
+            # be allocated: its earlier entries stay
+            "same_app_then_full": [(i, 66 if i < 4 else 9)
+                                   for i in range(1, 1024)],
+            "same_app_one_short": [(i, 66 if i % 2 else 9)
+                                   for i in range(1, 1024 - n + 1)],
         }
         for name, pre in states.items():
             for via in ("entries", "tables"):
@@ -493,6 +499,27 @@ def part_tables_case(acc, sub, tables):
             if sim.errors:
                 acc.violation(dict(kind="malformed_command"), case,
                               sim.errors[0])
+            # one controller reads every chip's router back
+            for c in sorted(sim.chips):
+                t = list(tables.get(c, []))
+                if c == first:
+                    t = t + t
+                try:
+                    back = s.mc.get_routing_table_entries(c[0], c[1])
+                except Exception as e:
+                    acc.violation(dict(kind="readback_exception",
+                                       exc=type(e).__name__), case,
+                                  "get_routing_table_entries%r raised %r"
+                                  % (c, e))
+                    break
+                got = [(sorted(int(r) for r in b[0].route), b[0].key,
+                        b[0].mask, b[1]) for b in back[1:] if b is not None]
+                want = [(sorted(rs), k, m, 7) for rs, k, m in t]
+                if got != want:
+                    acc.violation(dict(kind="readback"), case,
+                                  "chip %r reads back as %r, its router was "
+                                  "loaded with %r" % (c, got, want))
+                    break
 
 
 def run_shard(params, tier, acc):
